@@ -121,7 +121,7 @@ Lemma parse_letters : forall d ds, Forall digit (d :: ds) ->
     if bval (d :: ds) <=? P128 then Ok (bval (d :: ds) - 1) else Err E_RANGE.
 Proof.
   intros d ds Hd. inversion Hd as [|? ? Hd1 Hd2]; subst. unfold digit in Hd1.
-  unfold parse. cbn [map parse_loop bind].
+  unfold parse. cbn [map]. cbn [parse_loop bind].
   unfold cmul128. change (0 * 26) with 0. change (0 <? P128) with true. cbn [bind].
   rewrite (is_upper_letter d Hd1), letter_sub.
   unfold cadd128. destruct (N.ltb_spec (0 + d) P128) as [H|H]; [|unfold P128 in H; lia].
@@ -182,9 +182,17 @@ Proof.
 Qed.
 
 (* the other direction: every accepted non-empty name is the printed form of its value *)
-Lemma show_parse s n : s <> [] -> parse s = Ok n -> n < P128 /\ show n = s.
+Lemma parse_nil : parse [] = Err E_RANGE.
+Proof. reflexivity. Qed.
+
+Lemma parse_cons c r : parse (c :: r) = parse_loop true 0 (c :: r).
+Proof. reflexivity. Qed.
+
+Lemma show_parse s n : parse s = Ok n -> n < P128 /\ show n = s.
 Proof.
-  intros Hne Hp.
+  intros Hp.
+  assert (Hne : s <> []) by (intro E; subst; discriminate).
+  assert (Hp' : parse_loop true 0 s = Ok n) by (destruct s; [congruence|exact Hp]).
   (* all characters are upper-case letters, otherwise parse fails *)
   assert (Hup : forall s first x m, parse_loop first x s = Ok m -> Forall (fun c => is_upper c = true) s).
   { clear. induction s as [|c r IH]; intros first x m H; [constructor|].
@@ -194,7 +202,7 @@ Proof.
     destruct (is_upper c) eqn:U; [|discriminate].
     destruct (cadd128 x2 (c - 65)) as [x3| |]; cbn [bind] in H; try discriminate.
     constructor; [exact U|eapply IH; exact H]. }
-  specialize (Hup s true 0 n Hp).
+  specialize (Hup s true 0 n Hp'). clear Hp'.
   assert (Hds : exists ds, Forall digit ds /\ s = map letter ds).
   { clear Hp Hne. induction Hup as [|c r Hc _ IH]; [exists []; split; [constructor|reflexivity]|].
     destruct IH as (ds & Hd & ->). destruct (is_upper_inv c Hc) as (d & Hd1 & ->).
@@ -226,6 +234,19 @@ Proof.
 Qed.
 
 (* parse is total: never Panic *)
+Lemma parse_total s t : parse s <> Panic t.
+Proof. destruct s; [discriminate|]. rewrite parse_cons. revert t. generalize (n :: s). intros l t. revert l. 
+  assert (A : forall s first x t, parse_loop first x s <> Panic t).
+  { induction s0 as [|c r IH]; intros first x t0; cbn [parse_loop]; [discriminate|].
+    destruct first.
+    - cbn [bind]. unfold cmul128. destruct (_ <? _); cbn [bind]; [|discriminate].
+      destruct (is_upper c); [|discriminate]. unfold cadd128. destruct (_ <? _); cbn [bind]; [apply IH|discriminate].
+    - unfold cadd128 at 1. destruct (_ <? _); cbn [bind]; [|discriminate].
+      unfold cmul128. destruct (_ <? _); cbn [bind]; [|discriminate].
+      destruct (is_upper c); [|discriminate]. unfold cadd128. destruct (_ <? _); cbn [bind]; [apply IH|discriminate]. }
+  intro l. apply A.
+Qed.
+
 Lemma parse_loop_total : forall s first x t, parse_loop first x s <> Panic t.
 Proof.
   induction s as [|c r IH]; intros first x t; cbn [parse_loop]; [discriminate|].
